@@ -16,6 +16,7 @@ Inductive expr :=
 | ESlice (e : expr) (lo hi : option expr)    (* e[lo:hi] *)
 | EBin (op : string) (a b : expr)
 | EUn (op : string) (a : expr)
+| EFuncRet (params : list string) (ret : expr)   (* func(params) R { return ret } *)
 | EOther (what : string).
 
 Inductive stmt :=
